@@ -26,6 +26,7 @@ def gen(module):
 CHECKS = {
     "C05": gen("c05"),
     "C16": gen("c16"),
+    "C17": gen("c17"),
     "C06": gen("c06"),
     "C15": gen("c15"),
     "C01": rust("model_checking", [("std", "c01", [])], [("std", "c01", []), ("nostd", "c01", [])]),
